@@ -42,7 +42,7 @@ type c19RetryPlan struct {
 	TableMs   []int     `json:"table_ms"`
 	Steps     []c19Step `json:"steps"`
 	PreCancel bool      `json:"pre_cancel,omitempty"` // context cancelled before doWithRetry is called
-	HorizonMs int       `json:"horizon_ms,omitempty"` // > 0: maxRetryDuration shrunk to this (hook VerifSetMaxRetryDuration)
+	HorizonMs int       `json:"horizon_ms,omitempty"` // > 0: maxRetryDuration shrunk to this (scratch copy of the repository, see c19_horizon.go)
 }
 
 type c19Att struct {
@@ -331,50 +331,6 @@ func c19RetryPlans(tier string, r *rand.Rand) [][]c19RetryPlan {
 			if k%2 == 1 {
 				batch = append(batch, c19RetryPlan{Kind: "async-obtain", TableMs: tb, Steps: append(append([]c19Step{}, s...), c19Step{Out: "noretry"})})
 			}
-		}
-		batches = append(batches, batch)
-	}
-	// ---- the horizon (maxRetryDuration) shrunk: "final attempt; giving up"
-	hz := []struct {
-		table   []int
-		horizon int
-	}{{[]int{30}, 100}, {[]int{20, 40}, 130}}
-	if tier == "thorough" {
-		hz = append(hz, struct {
-			table   []int
-			horizon int
-		}{[]int{25, 25, 50}, 200})
-	}
-	for _, h := range hz {
-		var batch []c19RetryPlan
-		mk := func(steps ...c19Step) {
-			batch = append(batch, c19RetryPlan{Kind: "direct", TableMs: h.table, HorizonMs: h.horizon, Steps: steps})
-		}
-		pl := func(dur int) c19Step { return c19Step{Out: c19PlainKinds[r.Intn(len(c19PlainKinds))], DurMs: dur} }
-		many := func(dur int) []c19Step { // more plain failures than fit into the horizon
-			var s []c19Step
-			for i := 0; i < 12; i++ {
-				s = append(s, pl(dur))
-			}
-			return s
-		}
-		// every attempt fails: the loop gives up at the first attempt that ends after the horizon
-		mk(many(4)...)
-		mk(many(9)...)
-		mk(many(1)...)
-		// one long failing attempt that ends after the horizon; a long attempt that succeeds after it
-		mk(pl(3), pl(h.horizon+40), c19Step{Out: "ok"})
-		mk(pl(3), c19Step{Out: "ok", DurMs: h.horizon + 40})
-		mk(pl(h.horizon+25), c19Step{Out: "ok"})
-		// success / non-retryable error / cancellation before the horizon
-		mk(pl(2), pl(2), c19Step{Out: "ok", DurMs: 2})
-		mk(pl(2), c19Step{Out: "noretry", DurMs: 2})
-		mk(pl(2), c19Step{Out: "noretry", DurMs: h.horizon + 30})
-		s := many(3)
-		s[1].CancelAfterPct = 40
-		mk(s...)
-		for i := 0; i < 4; i++ {
-			mk(many(r.Intn(15))...)
 		}
 		batches = append(batches, batch)
 	}
@@ -756,11 +712,13 @@ func runC19(tier string, seed int64, outdir string, replay string) error {
 			for _, ms := range p.TableMs {
 				iv = append(iv, time.Duration(ms)*time.Millisecond)
 			}
+			if p.HorizonMs > 0 {
+				// the horizon is a constant of the library: scratch copy, separate process
+				c19Horizon(w, [][]c19RetryPlan{{p}}, emitRetry)
+				return nil
+			}
 			restore := certmagic.VerifSetRetryIntervals(iv)
 			defer restore()
-			if p.HorizonMs > 0 {
-				defer certmagic.VerifSetMaxRetryDuration(time.Duration(p.HorizonMs) * time.Millisecond)()
-			}
 			if p.Kind == "async-obtain" {
 				emitRetry(p, c19RunAsync(p, 0))
 			} else {
@@ -811,11 +769,6 @@ func runC19(tier string, seed int64, outdir string, replay string) error {
 			iv = append(iv, time.Duration(ms)*time.Millisecond)
 		}
 		restore := certmagic.VerifSetRetryIntervals(iv)
-		if hzn := batch[0].HorizonMs; hzn > 0 {
-			restoreH := certmagic.VerifSetMaxRetryDuration(time.Duration(hzn) * time.Millisecond)
-			restoreIv := restore
-			restore = func() { restoreH(); restoreIv() }
-		}
 		res := make([]c19RetryObs, len(batch))
 		sem := make(chan struct{}, 12)
 		var wg sync.WaitGroup
@@ -861,6 +814,8 @@ func runC19(tier string, seed int64, outdir string, replay string) error {
 			emitRetry(batch[i], res[i])
 		}
 	}
+	// ---- (a') the horizon: maxRetryDuration shrunk in a scratch copy of the repository (separate process)
+	c19Horizon(w, c19HorizonPlans(tier, r), emitRetry)
 	// ---- (b) job manager histories
 	nJobs := 300
 	if tier == "thorough" {
@@ -893,7 +848,7 @@ func runC19(tier string, seed int64, outdir string, replay string) error {
 	c19E2E(w, c19E2EPlans(tier, r))
 	w.Meta.Notes = append(w.Meta.Notes,
 		"retry instants are nanoseconds since just before doWithRetry / ManageAsync was called; the model is driven by the observed call durations and timer latencies (0 <= latency <= 3 s)",
-		"class retry-horizon: maxRetryDuration shrunk to 100-200 ms through the hook VerifSetMaxRetryDuration, so that 'final attempt; giving up' is reached; all other classes run with the 30-day horizon of the source",
+		"class retry-horizon: runs in a scratch copy of the repository made by the harness, in which `const maxRetryDuration` is turned into a variable and set to 100-200 ms by an in-package test (go test, separate process), so that 'final attempt; giving up' is reached; the repository itself and all other classes have the 30-day constant of the source",
 		"e2e cases: the real ACMEIssuer against two in-process mock ACME CAs; which CA received an order and which CA signed a certificate are observed at the CAs / by signature check")
 	w.Meta.Extra = map[string]any{"retry_cases_skipped_stalled": skippedStalled, "retry_tables_ms": "[30] [30 60 120] [40 40 80 150 150] (+2 in thorough)", "max_retry_duration_ns": int64(certmagic.VerifMaxRetryDuration)}
 	return nil
